@@ -12,6 +12,8 @@
 (*           graphics terminal (GfxTerm); what it now displays must be what *)
 (*           the Placement oracle allows for the placements the application *)
 (*           drew, each inside its window (Clip).                           *)
+(*   geom    the terminal's cells change their pixel size (same columns and *)
+(*           rows): kitty images on display are measured in the new cells.  *)
 (* REJECT lines carry why/det; a rejected scenario is skipped to its end    *)
 (* (fit and bcheck records are independent and all judged).                 *)
 EXTENDS RefTerm, Clip, ImageFit, BlockCells, GfxTerm, Placement, TLC, Json, IOUtils
@@ -63,7 +65,9 @@ BlockVerdict(e) ==
         LET p == CHOOSE p \in bad : \A q \in bad : p[2] < q[2] \/ (p[2] = q[2] /\ p[1] <= q[1])
             top == TopOf(e.px, e.iw, e.ih, p[1], p[2])
             bot == BotOf(e.px, e.iw, e.ih, p[1], p[2])
-            cls(px) == IF px = NoPixel THEN "none" ELSE IF Transparent(px) THEN "clear" ELSE "solid"
+            \* none: no pixel there; clear: sufficiently transparent; sheer: visible but not opaque; solid: opaque
+            cls(px) == IF px = NoPixel THEN "none" ELSE IF Transparent(px) THEN "clear"
+                       ELSE IF px[4] < 65535 THEN "sheer" ELSE "solid"
         IN [ok |-> FALSE, why |-> "pixels", det |-> cls(top) \o "/" \o cls(bot)]
      ELSE [ok |-> TRUE, why |-> "", det |-> ""]
 
@@ -83,7 +87,8 @@ ScaledVerdict(e) ==
      ELSE IF bad # {} THEN
         LET p == CHOOSE p \in bad : \A q \in bad : p[2] < q[2] \/ (p[2] = q[2] /\ p[1] <= q[1])
             F == Foot(e.px, e.iw, e.ih, e.ow, e.oh, p[1], p[2])
-        IN [ok |-> FALSE, why |-> "pixels", det |-> "rescaled:" \o (IF \A q \in F : Transparent(q) THEN "clear" ELSE "solid")]
+        IN [ok |-> FALSE, why |-> "pixels", det |-> "rescaled:" \o (IF \A q \in F : Transparent(q) THEN "clear"
+                                                                    ELSE IF \E q \in F : F = {q} THEN "solid" ELSE "edge")]
      ELSE [ok |-> TRUE, why |-> "", det |-> ""]
 
 (* ---- placement histories ---------------------------------------------- *)
@@ -204,6 +209,10 @@ Next ==
         /\ UNCHANGED <<t, base, gt, shown, bind, fs, cfg, failed>>
         /\ IF FitOK(e.iw, e.ih, e.bw, e.bh, e.cw, e.ch, e.ow, e.oh) THEN TRUE
            ELSE Reject(e, "fit", FitWhy(e.iw, e.ih, e.bw, e.bh, e.cw, e.ch, e.ow, e.oh))
+     ELSE IF e.ev = "geom" THEN
+        \* the terminal's cells have another pixel size from now on (same columns and rows)
+        /\ cfg' = [cfg EXCEPT !.cw = e.cw, !.ch = e.ch]
+        /\ UNCHANGED <<t, base, gt, shown, bind, fs, failed>>
      ELSE IF e.ev = "mark" THEN
         /\ base' = t.grid
         /\ UNCHANGED <<t, gt, shown, bind, fs, cfg, failed>>
